@@ -63,7 +63,7 @@ type bufWC struct {
 func (b *bufWC) Close() error { b.closed++; return nil }
 
 type framingSpec struct {
-	name string           // oracle kind
+	name string // oracle kind
 	f    channel.Framing
 }
 
